@@ -219,15 +219,10 @@ class BaseCurve(Intface_BaseCurve):
         maxdegree = max(self.degree, other.degree)
         selfcopy.degree = maxdegree
         othercopy.degree = maxdegree
-        npts0 = selfcopy.npts
-        npts1 = othercopy.npts
-        newknotvector = [0] * (maxdegree + npts0 + npts1 + 1)
-        newknotvector[:npts0] = selfcopy.knotvector[:npts0]
-        newknotvector[npts0:] = othercopy.knotvector[1:]
+        newknotvector = list(selfcopy.knotvector)
+        newknotvector += list(othercopy.knotvector[maxdegree + 1 :])
         newknotvector = KnotVector(newknotvector)
-        newctrlpoints = [0] * (npts0 + npts1 - 1)
-        newctrlpoints[:npts0] = selfcopy.ctrlpoints[:npts0]
-        newctrlpoints[npts0:] = othercopy.ctrlpoints[1:]
+        newctrlpoints = list(selfcopy.ctrlpoints) + list(othercopy.ctrlpoints)
         newcurve = self.__class__(newknotvector, newctrlpoints)
         newcurve.knot_clean([umaxleft])
         return newcurve
